@@ -179,6 +179,13 @@ def uStat (cfg : Cfg) (nanAware : Bool) (red : List Bool) (sh : List Nat)
   { shape := keptShape red sh,
     cell := fun k => reduce cfg.stat (cellVals red sh (keepFn cfg nanAware data mask) k) }
 
+/-- `glue.utils.array.compute_statistic` as coded: `if data.size == 0: return np.nan` (a scalar,
+whatever the axis) precedes the reduction. -/
+def uStatImpl (cfg : Cfg) (nanAware : Bool) (red : List Bool) (sh : List Nat)
+    (data : Idx → Val) (mask : Idx → Bool) : Result :=
+  if prod sh = 0 then { shape := [], cell := fun _ => .nan }
+  else uStat cfg nanAware red sh data mask
+
 /-! ## Views (normalised: after `slice.indices`, positive steps) -/
 
 inductive VItem where
@@ -294,11 +301,11 @@ def implDirect (cfg : Cfg) (data : Idx → Val) (sel : SelM) (vk : ViewKind)
   let vsh := viewShape' v
   let base := cfg.finite || cfg.positive
   match sel with
-  | .none => uStat cfg base red vsh (fun j => data (viewIdx v j)) (fun _ => true)
+  | .none => uStatImpl cfg base red vsh (fun j => data (viewIdx v j)) (fun _ => true)
   | .slice vs m =>
     if vk == .none then
       -- shortcut: `subset_state.to_array(self, cid)`, no mask
-      uStat cfg base red (subShape vs) (fun j => data (subIdx vs j)) (fun _ => true)
+      uStatImpl cfg base red (subShape vs) (fun j => data (subIdx vs j)) (fun _ => true)
     else implMasked m
   | .mask m => implMasked m
 where
@@ -361,22 +368,38 @@ def implStat (cfg : Cfg) (sh : List Nat) (data : Idx → Val) (sel : SelM) (vk :
   else implDirect cfg data sel vk v red
 
 /-- **Spec**: the documented result.  Every cell is the NaN-aware statistic of the selected,
-filtered values of the viewed arrays; the shape is the kept axes of the view.  For the
+filtered values of the viewed arrays (NaNs are always skipped); the shape is the kept axes of the
+view.  For the
 `SliceSubsetState` shortcut (no view) the documented result is the compact one: the kept axes of
-the sliced array, cell `j` holding the statistic of the corresponding cell of the full array. -/
+the sliced array, cell `j` holding the statistic of the corresponding cell of the full array (a
+scalar NaN when the slices select nothing). -/
 def specStat (cfg : Cfg) (sh : List Nat) (data : Idx → Val) (sel : SelM) (vk : ViewKind)
     (v : List VItem) (red : List Bool) : Result :=
-  let nanAware := cfg.finite || cfg.positive || !sel.isNone
   match sel, vk with
   | .slice vs m, .none =>
-    let full := uStat cfg nanAware red sh data (fun j => inRange j sh && m j)
+    let full := uStat cfg true red sh data (fun j => inRange j sh && m j)
+    if prod (subShape vs) = 0 then { shape := [], cell := fun _ => .nan }   -- empty slice: scalar NaN
+    else
     { shape := keptShape red (subShape vs),
       cell := fun k => if inRange k (keptShape red (subShape vs)) then full.cell (mapKept red vs k)
                        else .nan }
   | _, _ =>
     let vsh := viewShape' v
-    uStat cfg nanAware red vsh (fun j => data (viewIdx v j))
+    uStat cfg true red vsh (fun j => data (viewIdx v j))
       (fun j => inRange j vsh && sel.maskFn (viewIdx v j))
+
+/-- The code's condition for using the NaN-aware reducers (`finite or positive or mask is not None`);
+the `SliceSubsetState` shortcut passes no mask. -/
+def codeNanAware (cfg : Cfg) (sel : SelM) (vk : ViewKind) : Bool :=
+  cfg.finite || cfg.positive ||
+    (match sel with | .none => false | .slice _ _ => vk != .none | .mask _ => true)
+
+/-- The array the statistic is taken over contains no NaN (hypothesis of the partial theorem for the
+plain, non-NaN-aware path). -/
+def noNanInScope (data : Idx → Val) (sel : SelM) (vk : ViewKind) (v : List VItem) : Bool :=
+  match sel, vk with
+  | .slice vs _, .none => (allIdx (subShape vs)).all fun j => !(data (subIdx vs j)).isNan
+  | _, _ => (allIdx (viewShape' v)).all fun j => !(data (viewIdx v j)).isNan
 
 /-! ## Histograms -/
 
